@@ -196,10 +196,12 @@ def run_est(ctx, f):
     exception becomes `err <Class>` too, so that the run line disagrees with a model that answers `ok`."""
     from scipy.sparse.linalg import ArpackError
     try:
-        return call(f)
-    except (ArpackError, np.linalg.LinAlgError) as e:
+        return f()
+    except (ArpackError, np.linalg.LinAlgError) as e:      # LinAlgError is a ValueError: test it first
         ctx.count('solver-exception:' + type(e).__name__)
         return None
+    except ERRORS as e:
+        return 'err ' + type(e).__name__
     except Exception as e:
         ctx.count('unexpected-exception:' + type(e).__name__)
         return 'err ' + type(e).__name__
@@ -343,6 +345,8 @@ def make_solvers():
         def fit(self, matrix, n_components, init_vector=None):
             self.matrix, self.k = matrix, n_components
             dense = dense_of(matrix)
+            if not np.all(np.isfinite(dense)):
+                raise np.linalg.LinAlgError('non-finite operator')     # what LAPACK would answer, without its console noise
             if not (isinstance(n_components, (int, np.integer)) and 0 < n_components < min(dense.shape)):
                 raise ValueError('`k` must be an integer satisfying `0 < k < min(A.shape)`.')
             u, s, vt = np.linalg.svd(dense, full_matrices=False)
@@ -750,13 +754,13 @@ def predict_cases(ctx, kind, est, a, dense, reg, fr, fc, fs, normalized, rows, g
         key = gkey + ('predict', tuple(idx), single)
         if kind == 'PCA':
             mc = getattr(est, 'means_col_', None)
-            run = 'c09.pca_predict %d %s %s %s %s %d %d %s %d' % (
+            run = 'c09.pca_predict %d %s %s %s %s %d %d %s' % (
                 ncol, enc_bool(normalized), enc_vec(est.singular_values_), enc_mat(est.singular_vectors_right_),
-                enc_vec(mc if mc is not None else []), len(idx), ncol, enc_mat(x), xnnz)
+                enc_vec(mc if mc is not None else []), len(idx), ncol, enc_mat(x))
         else:
-            run = 'c09.predict %d %s %s %s %s %s %s %s %s %d %d %s %d' % (
+            run = 'c09.predict %d %s %s %s %s %s %s %s %s %d %d %s' % (
                 ncol, enc_optf(reg), enc_f(fr), enc_f(fc), enc_f(fs), enc_bool(normalized), enc_vec(est.singular_values_),
-                enc_mat(est.singular_vectors_right_), enc_vec(est.weights_col_), len(idx), ncol, enc_mat(x), xnnz)
+                enc_mat(est.singular_vectors_right_), enc_vec(est.weights_col_), len(idx), ncol, enc_mat(x))
         if isinstance(p, str):
             # every row of the fitted matrix (also an empty one: an isolated node) must be predictable
             cases.append(Case(key, dict(sigp, check='predict-reproduces-embedding', empty_row=bool(xnnz == 0)), run, p,
@@ -767,7 +771,10 @@ def predict_cases(ctx, kind, est, a, dense, reg, fr, fc, fs, normalized, rows, g
         ok_rows = well and np.all(np.isfinite(p))
         if ok_rows and raw_norm is not None:
             # a row that is exactly null stays null on both sides; a tiny non-null one is amplified by the normalisation
-            ok_rows = bool(np.all((raw_norm[idx] > COND_MIN) | (raw_norm[idx] == 0)))
+            # rows that are exactly null on both sides (diag_row = 0) are compared; a row that is null only up to
+            # rounding is turned into an arbitrary unit vector by the normalisation
+            exact_null = bool(np.all(p == 0) and np.all(np.asarray(est.embedding_row_)[idx] == 0))
+            ok_rows = bool(np.all(raw_norm[idx] > COND_MIN)) or exact_null
         if ok_rows:
             spec = 'c09.spec_close %d %d %s %s %s' % (len(idx), k_out, enc_mat(p), enc_mat(np.asarray(est.embedding_row_)[idx]),
                                                      enc_f(TOL_PREDICT))
